@@ -10,11 +10,12 @@ TRUSTED = [
     'hand-written models coq/Model/Buffer.v, coq/Model/FifoStream.v; trace validation under harness/detsched.py as for C01/C08',
     'hang = the deterministic scheduler finds no enabled thread and no pending timer (real code, virtual primitives)',
     __import__('harness.scen_lane', fromlist=['LANE_TRUSTED']).LANE_TRUSTED,
+    __import__('harness.scen_parreal', fromlist=['ORDER_TRUSTED']).ORDER_TRUSTED,
 ]
 ASSUME = [
     'a source next() call returns (one step)',
     'deadlock-freedom is a theorem for fifo_stream / Parmapper with sources raising ordinary exceptions (C05_fifo_no_deadlock); and for buffer(n >= 3) (C05_buffer3_no_deadlock); refuted for buffer(1)/(2) and BaseException sources; see Props/C05.v',
-    'AsyncBuffer / SyncIter / ParmapperAsync and process executors are not scheduled by this check',
+    'AsyncBuffer / SyncIter are not covered; ParmapperAsync and process executors are not scheduled: they run for real (real-run part, watchdog)',
 ]
 
 
@@ -100,6 +101,7 @@ def parts():
         core.Part('fifo', 'harness.scen_stream', 'fifo', 350, 6000, 'DriverFifo', ss.coq_fifo_case,
                   make_oracle('fifo'), nontrivial),
         __import__('harness.scen_lane', fromlist=['part']).part(120, 2000),
+        __import__('harness.scen_parreal', fromlist=['order_part']).order_part(21, 300),
     ]
 
 
@@ -112,5 +114,7 @@ def check(tier, seed, replay=None):
              'under the deterministic scheduler, which classifies each run (ok / deadlock with the blocked set / step bound / leaked '
              'threads); the oracle compares the delivered outputs and the final outcome with the stream\'s sequential plan; each run is '
              'also replayed in the Coq model. non-trivial = early stop or failure present and another thread ran after shutdown began; '
-             'distinct = distinct (configuration, trace)',
+             'distinct = distinct (configuration, trace). Real-run part: Stream.parmap with executor=thread/process or an async worker '
+             'function under a 60 s watchdog (early stop, failing source / preprocessor / worker): the iteration and the closing of the '
+             'iterator must end, with the outputs and outcome of the model under a fair schedule',
         replay=replay)
